@@ -6,6 +6,7 @@ from ..model import fsgrid
 from ..model.fsgrid import BLANK, OK, ERROR, DONTCARE, NOOP
 
 LEVEL = "exploration"
+SUITE_MONITOR = True      # also judge the repository's own tests/doctests through rv/monitors.py
 RULE = ("Histories of 1-6 region assignments on FSArrays of shapes 0-4 x 0-5 (constructor "
         "formatting arguments included): forms a[r0:r1, c0:c1], a[r0:r1], a[r, c0:c1], "
         "a[r0:r1, c], a[r, c]; blocks given as lists of str / FmtStr or as FSArray, row lengths "
